@@ -112,10 +112,10 @@ def gen_fit(rng, family):
         edges = [[0, 1], [1, 2]]
     elif family == "cross-ok":
         # res >> rd1 ; [res, rd1] >> rd2 with names such that (rd1, res) is also the fan-in order of the Concat
-        nodes = [mk_res(rng, 0, "z_res", d), mk_ridge(rng, 1, "b_rd1", o), mk_ridge(rng, 2, "c_rd2", o)]
+        nodes = [mk_res(rng, 0, "z_res", d, 2), mk_ridge(rng, 1, "b_rd1", o), mk_ridge(rng, 2, "c_rd2", o)]
         edges = [[0, 1], [0, 2], [1, 2]]
     elif family == "cross-stage-concat-order":
-        nodes = [mk_res(rng, 0, "a_res", d), mk_ridge(rng, 1, "b_rd1", o), mk_ridge(rng, 2, "c_rd2", o)]
+        nodes = [mk_res(rng, 0, "a_res", d, 2), mk_ridge(rng, 1, "b_rd1", o), mk_ridge(rng, 2, "c_rd2", o)]
         edges = [[0, 1], [0, 2], [1, 2]]
         expect = "invalid"
     elif family == "early-output-readout":
@@ -137,7 +137,7 @@ def gen_fit(rng, family):
     warm = rng.choice([0, 0, 1, 2])
     J = rng.choice([1, 1, 2, 3])
     if family == "deep3":
-        J = min(J, 2)
+        J = 1
     lens = [warm + rng.randint(2, 3 if family == "deep3" else 5) for _ in range(J)]
     X = [rows(rng, T, d) for T in lens]
     ridges = [n["id"] for n in nodes if n["kind"] == "ridge"]
@@ -305,8 +305,8 @@ def gen_train(rng, family):
         nodes = [mk_input(0, "a_in", d), r, mk_online(rng, 2, "c_rd", "rls", r["odim"], o)]
         edges = [[0, 1], [1, 2]]
     elif family == "deep-rls":
-        r1 = mk_res(rng, 0, "a_res1", d)
-        r2 = mk_res(rng, 2, "c_res2", o)
+        r1 = mk_res(rng, 0, "a_res1", d, 2)
+        r2 = mk_res(rng, 2, "c_res2", o, 2)
         nodes = [r1, mk_online(rng, 1, "b_rd1", "rls", r1["odim"], o), r2, mk_online(rng, 3, "d_rd2", rng.choice(["rls", "lms"]), r2["odim"], o)]
         edges = [[0, 1], [1, 2], [2, 3]]
     elif family == "shortcut-rls":
@@ -316,6 +316,8 @@ def gen_train(rng, family):
     else:
         raise ValueError(family)
     T = rng.choice([1, 2, 3, 4, 5, 6, 7])
+    if family == "deep-rls":
+        T = min(T, 4)          # exact rationals through two chained RLS recursions grow fast
     lim = 4 if "lms" not in family and not any(n["kind"] == "lms" for n in nodes) else 2
     return {"op": "train", "family": family, "nodes": nodes, "edges": edges, "din": d, "X": rows(rng, T, d, lim, 1), "Y": rows(rng, T, o, 4, 1),
             "k": rng.choice([1, 2, 2, 3, 4]), "xmode": rng.choice(["array", "mapping", "mapping"]), "ymode": rng.choice(["array", "mapping"])}
@@ -468,7 +470,7 @@ def correspondence(ctx):
         dist[key] = dist.get(key, 0) + 1
         if nontrivial(sc, o):
             nt.add(repr(jsonable(sc)))
-    failing, err = core.run_cases(ctx.pid, IMPORTS, terms, chunk=6)
+    failing, err = core.run_cases(ctx.pid, IMPORTS, terms, chunk=3)
     return {"evaluations": len(cases), "distinct_nontrivial": len(nt),
             "rule": "Model.fit on {res>>ridge, input>>res>>ridge, deep with 2 and 3 readouts, input-to-readout shortcut (both Concat fan-in orders), "
                     "two parallel readouts, readout fed by the data, cross-stage Concat, ESN node} x {1-3 sequences, warm-up 0-2, reset on/off, "
